@@ -169,7 +169,7 @@ class RankRunner:
             rec = {'i': i, 'op': kind}
             if kind == 'train':
                 self.model.train()
-                self.model.zero_grad(set_to_none=True)
+                self.model.zero_grad(set_to_none=c.get('zero_to_none', True))
                 for micro in range(c.get('accum', 1)):
                     simdist.set_phase(f'op{i}:train/fwdbwd')
                     self._forward_backward(op['seed'], micro, feed)
